@@ -39,13 +39,15 @@ ASSUMPTIONS = [
     "comparisons are comparisons of the scaled integers of the model; the year value year + yday/365.25 never equals a "
     "multiple of 1/8 (1461 is coprime to 32*yday) and is at least 1e-5 away from one, so its rounding is immaterial",
     "key categories are interned in sorted order (pandas groupby order = model group order); simulant labels are unique",
-    "NaN attributes / NaN edges and non-numeric parameter columns are outside the model (requests may repeat labels: "
-    "covered by the theorems and generated)",
+    "NaN edges in the DATA are outside the model; NaN / missing / non-numeric ATTRIBUTES of simulants are modelled and "
+    "generated (open finding F-AF for the first two); requests may repeat labels (covered by the theorems, generated)",
     "the theorems C15_bin_membership / C15_extrapolate / C15_edges assume `wf` = a frame accepted by the code's own "
     "validation (check_data_complete incl. the covered-range check of fix 1620b43e, finding F-AC), nothing more",
 ]
 LEVEL_NOTE = ("full on well-formed data (wf); C15_year_current carries the guard day-of-year <= 365, "
-              "C15_year_leap_dec31_refuted exhibits the excluded class = Dec 31 of a leap year (open finding F-N)")
+              "C15_year_leap_dec31_refuted exhibits the excluded class = Dec 31 of a leap year (open finding F-N); the "
+              "membership / extrapolation / edge theorems carry the guard no_nan (no missing key, no NaN parameter): "
+              "C15_nan_parameter / C15_missing_key state what the code does with missing attributes (open finding F-AF)")
 
 CLAIM = {
     "technique": "Coq proof over a Gallina model of the lookup tables + Coq-decided correspondence on real contexts",
@@ -58,8 +60,9 @@ CLAIM = {
             "data included) and a brute-force row-scan oracle.",
     "note": "well-formedness = the code's own validation (check_data_complete, transcribed and compared with the real "
             "validation on malformed data; since fix 1620b43e nothing else is assumed); floats modelled as scaled integers (inputs are multiples of 1/8); `year` theorem guarded by "
-            "day-of-year <= 365 (open finding F-N); NaN / non-numeric parameters and "
-            "keys absent from the data (KeyError, modelled as rejection) outside the theorems; correspondence sampled",
+            "day-of-year <= 365 (open finding F-N); headline theorems guarded by no_nan (open finding F-AF: missing "
+            "attribute values are not rejected - modelled as the code behaves, oracle failures of that class reported as "
+            "KNOWN-FINDING); keys absent from the data (KeyError, modelled as rejection) outside the theorems; correspondence sampled",
 }
 TRUSTED = [
     "C15: probe component + recording wrapper around Interpolation.__call__ (reads the `year` column it is handed, "
@@ -427,16 +430,23 @@ def oracle_binned(case, t, rec, groups):
     if any(sim_bads(case, t, i) for i in rec["idx"]):
         return (rec["code"] == 1), "a simulant with a non-numeric parameter attribute was not rejected"
     if any(has_missing(case, t, i) for i in rec["idx"]):
-        # missing attributes (NaN parameter / missing key): what the property wants is a rejection or a defined row; what
-        # the code does (last bin / a row of NaN, silently) is candidate finding F-NAN, awaiting triage - the model
-        # transcribes it and Coq compares it; the direct oracle checks only the simulants without missing values
-        sub = dict(rec, idx=[i for i in rec["idx"] if not has_missing(case, t, i)])
-        if rec["code"] == 0:
-            if [r[0] for r in rec["rows"]] != list(rec["idx"]):
-                return False, f"result labels {[r[0] for r in rec['rows']]} differ from the request {rec['idx']}"
-            sub["rows"] = [r for r in rec["rows"] if not has_missing(case, t, r[0])]
-            return oracle_binned(case, t, sub, groups)
-        return True, ""
+        # missing attributes (NaN parameter / missing key): no data row matches such a simulant, so the property wants the
+        # call rejected.  The code returns the last bin / a row of NaN (open finding F-AF).  The other simulants of the
+        # request are checked first, so that any OTHER failure is reported as such; only then the F-AF failure.
+        if rec["code"] != 0:
+            return True, ""
+        if [r[0] for r in rec["rows"]] != list(rec["idx"]):
+            return False, f"result labels {[r[0] for r in rec['rows']]} differ from the request {rec['idx']}"
+        sub = dict(rec, idx=[i for i in rec["idx"] if not has_missing(case, t, i)],
+                   rows=[r for r in rec["rows"] if not has_missing(case, t, r[0])])
+        o, m_ = oracle_binned(case, t, sub, groups)
+        if not o:
+            return False, m_
+        i, vals = next((r[0], r[1]) for r in rec["rows"] if has_missing(case, t, r[0]))
+        if sim_nans(case, t, i) and NANKEY not in sim_keys(case, t, i):
+            return False, (f"{FAF} NaN parameter given the last bin although extrapolation is off or no row contains it: "
+                           f"simulant {i} (NaN in {[t['params'][j] for j in sim_nans(case, t, i)]}) received {vals}")
+        return False, f"{FAF} missing key given NaN: simulant {i} was not rejected and received {vals}"
     must_reject, want = False, []
     for i in rec["idx"]:
         G = groups.get(tuple(sim_keys(case, t, i)))
@@ -493,6 +503,7 @@ def run_binned(case):
     ok, msg = True, ""
     coq_tables, tags, obs = [], set(), []
     called = 0
+    faf = None              # first failure of the listed class F-AF; reported only if nothing else fails in this case
     for ti, t in enumerate(case["tables"]):
         tab, err = built[ti]
         groups = grid_groups(t)
@@ -529,7 +540,9 @@ def run_binned(case):
                 tags.add("call_nan_row")
             if groups is not None:
                 o, m_ = oracle_binned(case, t, rec, groups)
-                if not o and ok:
+                if not o and FAF in m_:
+                    faf = faf or f"table {ti} {rec['where']} idx={rec['idx']}: {m_}"
+                elif not o and ok:
                     ok, msg = False, f"table {ti} {rec['where']} {rec['y']}-{rec['yday']} idx={rec['idx']}: {m_}"
             elif case["validate"] and tab is not None and not case["ext"] and rec["code"] == 0:
                 # data that the code's validation ACCEPTED is "well-formed" by the code's own standard: without
@@ -547,6 +560,9 @@ def run_binned(case):
         tags.add(f"keys{len(t['keys'])}")
         if ypos is not None:
             tags.add("year")
+    if ok and faf:
+        ok, msg = False, faf
+        tags.add("known_F-AF_reproduced")
     tags.add("ext" if case["ext"] else "noext")
     tags.add("validate" if case["validate"] else "novalidate")
     return Result(ok=ok, msg=msg, coq=f"({clist(coq_tables)} : list itable)", key=_key(case) if called else None, obs=obs,
@@ -557,9 +573,14 @@ def _key(case):
     return {k: v for k, v in case.items() if k != "note"}
 
 
+FAF = "[F-AF]"      # marks an oracle failure of exactly the listed class (a missing attribute value was not rejected)
+
+
 def finding_binned(case, res):
     if res.msg and "year:" in res.msg and "day 366" in res.msg:
         return "F-N"
+    if res.msg and FAF in res.msg:
+        return "F-AF"
     return None
 
 
@@ -891,6 +912,7 @@ def run_cat(case):
     ok, msg = True, ""
     n = len(case["pop"]["ka"])
     coq_tables, tags, obs, called = [], set(), [], 0
+    faf = None
     for ti, t in enumerate(case["tables"]):
         tab, err = built[ti]
         if tab is None:
@@ -912,7 +934,17 @@ def run_cat(case):
             known = all(0 <= i < n for i in rec["idx"])
             if known and any(NANKEY in sim_keys(case, t, i) for i in rec["idx"]):
                 tags.add("call_missing_key")
-                continue                     # candidate finding F-NAN (a row of NaN, silently): compared by Coq only
+                if rec["code"] == 0:         # open finding F-AF: no data row has a missing key, yet nothing is rejected
+                    i = next(i for i in rec["idx"] if NANKEY in sim_keys(case, t, i))
+                    got = dict((r[0], r[1]) for r in rec["rows"])
+                    others = [[j, v] for j, v in rec["rows"] if NANKEY not in sim_keys(case, t, j)]
+                    wanted = [[j, list(keyrows[tuple(sim_keys(case, t, j))][0]["v"])] for j, _ in others
+                              if tuple(sim_keys(case, t, j)) in keyrows]
+                    if others != wanted or [r[0] for r in rec["rows"]] != list(rec["idx"]):
+                        ok, msg = False, f"idx={rec['idx']}: got {rec['rows'][:4]} (simulants with a key: expected {wanted[:4]})"
+                    else:
+                        faf = faf or f"idx={rec['idx']}: {FAF} missing key given NaN: simulant {i} was not rejected and received {got.get(i)}"
+                continue
             if not known or any(tuple(sim_keys(case, t, i)) not in keyrows for i in rec["idx"]):
                 if rec["code"] != 1 and ok:
                     ok, msg = False, f"idx={rec['idx']}: a simulant without a matching data row was not rejected"
@@ -926,6 +958,9 @@ def run_cat(case):
                                 clist(ccalls)))
         obs.append({"calls": [{kk: r[kk] for kk in ("idx", "code", "rows", "err") if kk in r} for r in calls[ti][:10]]})
         tags.add(f"keys{len(t['keys'])}")
+    if ok and faf:
+        ok, msg = False, faf
+        tags.add("known_F-AF_reproduced")
     return Result(ok=ok, msg=msg, coq=f"({clist(coq_tables)} : list ctable)", key=_key(case) if called else None,
                   obs=obs, tags=tuple(sorted(tags)))
 
@@ -1036,7 +1071,8 @@ def streams(tier):
                n_quick=90, n_thorough=540, shrink=shrink_case, corpus=lambda: _load_corpus("malformed"), finding_of=finding_binned,
                doc="binned tables with injected defects: validation and raw merge semantics"),
         Stream(name="categorical", imports=imp, check="check_cat", gen=gen_cat, run=run_cat,
-               n_quick=40, n_thorough=250, shrink=shrink_case, corpus=lambda: _load_corpus("categorical")),
+               n_quick=40, n_thorough=250, shrink=shrink_case, corpus=lambda: _load_corpus("categorical"),
+               finding_of=finding_binned),
         Stream(name="scalar", imports=imp, check="check_scalar", gen=gen_scalar, run=run_scalar,
                n_quick=15, n_thorough=90, shrink=shrink_case, corpus=lambda: _load_corpus("scalar")),
         Stream(name="leapday", imports=imp, check="check_interp", gen=gen_leapday, run=run_binned,
